@@ -49,7 +49,7 @@ def wf_query(ex, g, Y, X, C=None):
         [("conditions-in-graph", L.forall(1, lambda v: L.Implies(C.has(v), g.N(v))))] if C is not None else [])
 
 
-def ident_clauses(ex, res, *, outcomes=None, treatments=None, graph=None, prefix=""):
+def ident_clauses(ex, res, *, outcomes=None, treatments=None, graph=None, conditions=None, prefix=""):
     """clauses comparing the fields of a returned Identification with the specified sets / graph"""
     from y0vc.contract import same_value
     L = ex.L
@@ -63,6 +63,8 @@ def ident_clauses(ex, res, *, outcomes=None, treatments=None, graph=None, prefix
         out.update(same_value(L, q.fields["treatments"], treatments, prefix + "treatments."))
     if graph is not None:
         out.update(same_value(L, res.fields["graph"], graph, prefix + "graph."))
+    if conditions is not None:
+        out.update(same_value(L, q.fields["conditions"], conditions, prefix + "conditions."))
     return out
 
 
@@ -79,6 +81,24 @@ class _Line(Contract):
     def pre(self, ex, a):
         return wf_query(ex, a.g, a.Y, a.X, a.C)
 
+    returns = "identification"
+
+    def result(self, ex, a):
+        """havoc + assume post: a fresh value of the result shape constrained by every postcondition clause"""
+        L = ex.L
+        if ex.binders:
+            from y0vc.values import OutOfSubset
+            raise OutOfSubset("contract result with fresh graph symbols under a loop / comprehension variable")
+        if self.returns == "expr":
+            res = VExpr(theory(ex).fresh("line"))
+        else:
+            res, wf, _ = sym_identification(L, L.fresh_name("ident"))
+            for f in wf:
+                ex.assume(f)
+        for name, cl in self.post(ex, a, res).items():
+            ex.assume(cl)
+        return res
+
 
 def _anY(ex, g, Y, name="rtcD"):
     L = ex.L
@@ -89,6 +109,7 @@ def _anY(ex, g, Y, name="rtcD"):
 @contract(f"{IDS}.line_1", props=["C01", "C02"])
 class _(_Line):
     """line 1: sum the distribution over V minus Y"""
+    returns = "expr"
     def post(self, ex, a, res):
         T = theory(ex)
         L = ex.L
@@ -113,7 +134,7 @@ class _(_Line):
         L, g = ex.L, a.g
         T = theory(ex)
         A = _anY(ex, g, a.Y)
-        out = ident_clauses(ex, res, outcomes=a.Y, treatments=VSet(lambda v: L.And(a.X.has(v), A(v))),
+        out = ident_clauses(ex, res, outcomes=a.Y, treatments=VSet(lambda v: L.And(a.X.has(v), A(v))), conditions=VSet(lambda v: L.F()),
                             graph=mk_graph(lambda v: A(v), lambda p, q: L.And(g.D(p, q), A(p), A(q)), lambda p, q: L.And(g.U(p, q), A(p), A(q))))
         if isinstance(res, VObj) and isinstance(res.fields.get("estimand"), VExpr):
             R = VSet(lambda v: L.And(g.N(v), L.Not(A(v))))
@@ -145,7 +166,7 @@ class _(_Line):
         L, g = ex.L, a.g
         T = theory(ex)
         W = self._W(ex, a)
-        out = ident_clauses(ex, res, outcomes=a.Y, treatments=VSet(lambda v: L.Or(a.X.has(v), W(v))),
+        out = ident_clauses(ex, res, outcomes=a.Y, treatments=VSet(lambda v: L.Or(a.X.has(v), W(v))), conditions=a.C,
                             graph=mk_graph(lambda v: g.N(v), lambda p, q: g.D(p, q), lambda p, q: g.U(p, q)))
         if isinstance(res, VObj) and isinstance(res.fields.get("estimand"), VExpr):
             out["estimand.same"] = res.fields["estimand"].t == a.e.t
@@ -181,7 +202,7 @@ class _(_Line):
         L, g = ex.L, a.g
         keep, CU, CUx = self._S(ex, a)
         Sp = lambda v: L.And(g.N(v), L.exists(1, lambda s: L.And(keep(s), CU(s, v))))
-        return ident_clauses(ex, res, outcomes=a.Y, treatments=VSet(lambda v: L.And(a.X.has(v), Sp(v))),
+        return ident_clauses(ex, res, outcomes=a.Y, treatments=VSet(lambda v: L.And(a.X.has(v), Sp(v))), conditions=VSet(lambda v: L.F()),
                              graph=mk_graph(lambda v: Sp(v), lambda p, q: L.And(g.D(p, q), Sp(p), Sp(q)), lambda p, q: L.And(g.U(p, q), Sp(p), Sp(q))))
 
 
@@ -209,3 +230,45 @@ class _(Contract):
         r = T.fresh("pcond")
         ex.assume(T.is_cls(r, ["Probability", "Fraction"]))
         return VExpr(r)
+
+
+@contract(f"{IDS}.identify", props=["C02", "C01"])
+class _(_Line):
+    """Totality and refusal discipline of ID: on a valid query over an acyclic graph the only exception is Unidentifiable; the
+    function's own `raise Unidentifiable` is reachable only under the published line-5 condition (G - X has a single
+    district and G is a single district); every recursive call is made on a valid query over an acyclic graph."""
+    allowed_raises = ("Unidentifiable",)
+    raises_exact = False
+
+    def pre(self, ex, a):
+        from y0vc.libspec import acyclic
+        ac, _ = acyclic(ex, lambda p, q: a.g.D(p, q))
+        return wf_query(ex, a.g, a.Y, a.X, a.C) + [("acyclic", ac)]
+
+    def raises(self, ex, a):
+        return {"Unidentifiable": ex.L.T()}
+
+    def raises_direct(self, ex, a):
+        L, g = ex.L, a.g
+        keep = lambda v: L.And(g.N(v), L.Not(a.X.has(v)))
+        CU = ex.closure(lambda p, q: g.U(p, q), "rtcU")
+        CUx = ex.closure(lambda p, q: L.And(g.U(p, q), keep(p), keep(q)), "rtcUx")
+        single_wo = L.forall(2, lambda p, q: L.Implies(L.And(keep(p), keep(q)), CUx(p, q)))
+        single = L.forall(2, lambda p, q: L.Implies(L.And(g.N(p), g.N(q)), CU(p, q)))
+        return {"Unidentifiable": L.And(single_wo, single, L.exists(1, lambda v: a.X.has(v)))}
+
+    def post(self, ex, a, res):
+        return {"type": z3.BoolVal(isinstance(res, VExpr))}
+
+    def result(self, ex, a):
+        return VExpr(theory(ex).fresh("id"))
+
+
+@contract(f"{UT}.str_nodes_to_variable_nodes", props=["C02"])
+class _(Contract):
+    """A fresh graph with the same (Variable) nodes and edges: the caller's graph object is never shared with the result."""
+    params = {"graph": "graph"}
+
+    def spec(self, ex, a):
+        g = a.graph
+        return mk_graph(lambda v: g.N(v), lambda p, q: g.D(p, q), lambda p, q: g.U(p, q))
